@@ -65,6 +65,7 @@ type input struct {
 	Emb     bool        `json:"emb,omitempty"`    // embedded core/types object: oracle only
 	NoCoq   bool        `json:"nocoq,omitempty"`  // too large for the in-Coq evaluation
 	Expect  string      `json:"expect,omitempty"` // "ok": a structured, unmodified message must be accepted
+	Batch   []input     `json:"batch,omitempty"`  // kind "batch": run all (used for the child process)
 }
 
 // ---------- finding classes ----------
@@ -816,6 +817,11 @@ func run(c *hx.Ctx, in input) {
 		doPayload(c, in)
 	case "frame":
 		doFrame(c, in)
+	case "batch":
+		for _, x := range in.Batch {
+			x.NoCoq = true
+			run(c, x)
+		}
 	}
 }
 
